@@ -88,6 +88,11 @@ XofSepScripts == {[t |-> "xof", dst_parts |-> ds, binder_parts |-> bs, reads |->
                      ds \in {<< <<1, 2>>, <<3, 4>> >>, << <<1, 2>>, <<3, 5>> >>, << <<1, 2>>, <<>> >>, << <<1, 2>>, <<3, 4>>, <<9>> >>, << <<1, 3>>, <<3, 4>> >>, << <<1, 2>>, <<3>> >>},
                      bs \in {<< <<9, 8>>, <<7, 6>> >>, << <<9, 8>>, <<7, 7>> >>, << <<9, 8>> >>, << <<9, 8>>, <<7, 6>>, <<0>> >>, << <<8, 8>>, <<7, 6>> >>},
                      r \in {<<32>>, <<5, 27>>}}
+   \* the empty tag / binder given as zero parts, as one empty part and as two empty parts (one concatenation, one stream), next to
+   \* binders that start with the byte a length prefix of zero would be
+   \cup {[t |-> "xof", dst_parts |-> ds, binder_parts |-> bs, reads |-> <<32>>] :
+            ds \in {<< >>, << <<>> >>, << <<>>, <<>> >>, << <<0>> >>},
+            bs \in {<< >>, << <<>> >>, << <<>>, <<>> >>, << <<7>> >>, << <<0, 7>> >>, << <<0>>, <<7>> >>}}
 
 VARIABLE st
 InitPrng == st \in {Script(o) : o \in Single \cup Switches \cup Triples}
